@@ -828,6 +828,13 @@ func (g *ArtGen) dataTable() {
 				}
 			case 5:
 				g.w("<p" + g.noise() + ">" + g.toks(2+g.r.Intn(4)) + "</p>")
+			case 7:
+				if g.P.Videos {
+					// media sources that are not images
+					g.w(g.toks(1) + ` <video controls><source src="` + g.ref("source", "src", "table", ".mp4", mediaForms) + `" type="video/mp4"></video> <audio controls><source src="` + g.ref("source", "src", "table", ".ogg", mediaForms) + `"></audio>`)
+				} else {
+					g.w(g.toks(2))
+				}
 			case 6:
 				// a cell without any visible content
 				switch g.r.Intn(4) {
